@@ -71,6 +71,7 @@ TMatch ==
                  ELSE IF d \in DOMAIN den /\ den[d] # v THEN "den"
                  ELSE "oracle",
                  [obj |-> e.obj, d |-> e.d, out |-> e.out,
+                  lang |-> IF d \in DOMAIN cur.docs /\ HasOracle(cur) THEN SetSeq(LangEval(cur.src, cur.docs[d])) ELSE <<>>,
                   sw |-> IF e.obj + 1 \in DOMAIN objs THEN objs[e.obj + 1].sw ELSE <<>>])
           /\ UNCHANGED rvars
 
@@ -84,6 +85,7 @@ TTri ==
                  ELSE IF e.out = "X" THEN "tri_both"
                  ELSE IF e.out \in Tri /\ e.out \in TriAllowed(d) THEN "den" ELSE "tri_oracle",
                  [obj |-> e.obj, d |-> e.d, out |-> e.out,
+                  lang |-> IF d \in DOMAIN cur.docs /\ HasOracle(cur) THEN SetSeq(LangEval(cur.src, cur.docs[d])) ELSE <<>>,
                   sw |-> IF e.obj + 1 \in DOMAIN objs THEN objs[e.obj + 1].sw ELSE <<>>])
           /\ UNCHANGED rvars
 
